@@ -40,7 +40,20 @@ def gen_case(case):
     srcs = []
     mode = r.random()
     meta = {}
-    if mode < 0.2:
+    if mode < 0.08:
+        # consecutive glyphs whose painted bounds differ by less than (or about) one quantisation step on every side: one
+        # a bit wider, the next a bit taller, ...  (boxes that are tempting to share)
+        meta["mode"] = "near-equal-bounds"
+        vb = 100
+        x0, y0, w, h = r.uniform(10, 30), r.uniform(10, 30), r.uniform(30, 50), r.uniform(30, 50)
+        for g in range(r.randint(2, 5)):
+            j = lambda: r.uniform(-2.5, 2.5)
+            kind = r.choice(["rect", "rect", "ellipse"])
+            a, b, c_, d_ = x0 + j(), y0 + j(), w + j(), h + j()
+            el = f'<rect x="{a:.2f}" y="{b:.2f}" width="{c_:.2f}" height="{d_:.2f}" fill="#{r.randint(0, 0xFFFFFF):06x}"/>' if kind == "rect" else f'<ellipse cx="{a + c_ / 2:.2f}" cy="{b + d_ / 2:.2f}" rx="{c_ / 2:.2f}" ry="{d_ / 2:.2f}" fill="#{r.randint(0, 0xFFFFFF):06x}"/>'
+            srcs.append(f'<svg xmlns="http://www.w3.org/2000/svg" viewBox="0 0 {vb} {vb}">{el}</svg>')
+        cfg.pop("transform", None)
+    elif mode < 0.2:
         meta["mode"] = "grid-recurrence"
         svgs, gcfg, m = svggen.grid_recurrence_set(r, r.randint(2, 3), pal=pal)
         keep_clip = cfg["clip_to_viewbox"]
